@@ -313,6 +313,7 @@ class C20(Prop):
                     log.probe('c20.dp_limit_binds')
             log.last_m = np.array(m, copy=True)
             log.last_groups = g.copy()
+            log.types = np.array(obj._parametric['asm_ids'][:, 1], copy=True)
             return m, tlim
 
         fs = simenv.SimFS(plan=fs_plan, clock_jumps=clock, pool_plan=pool)
@@ -381,6 +382,27 @@ class C20(Prop):
                 log2 = self._optimize(case, d, dp_limit=dp)
             merge(log2)
             res['probes']['c20.dp_run'] = 1
+        # adversarial limit: between the pressure drops that the flow of the
+        # last (remainder) group means for its different assembly types
+        if log1.outcome == 'ok' and getattr(log1, 'param', None) \
+                and len(log1.param) > 1 and hasattr(log1, 'last_m') \
+                and not res['violations']:
+            g_last = int(np.max(log1.last_groups))
+            sel = log1.last_groups == g_last
+            types = set(int(t) for t in log1.types[sel])
+            if len(types) > 1:
+                m_last = float(log1.last_m[sel][0])
+                dps = []
+                for t in sorted(types):
+                    dat = log1.param[t]
+                    o = np.argsort(dat[:, 2])
+                    dps.append(float(np.interp(m_last, dat[o, 2], dat[o, 3])))
+                if max(dps) > 1.02 * min(dps) and min(dps) > 0:
+                    dp2 = world._r(0.5 * (max(dps) + min(dps)) / 1e6, 8)
+                    with sim.scratch_dir() as d:
+                        log4 = self._optimize(case, d, dp_limit=dp2)
+                    merge(log4)
+                    res['probes']['c20.adversarial_dp_run'] = 1
         # second execution under ambient faults: same distribution
         if log1.outcome == 'ok' and not res['violations'] \
                 and hasattr(log1, 'last_m'):
